@@ -430,4 +430,4 @@ def _run(spec, rec, qv):
 
 
 def subchecks(tier):
-    return [Sub("history", history(), run_case, quick=6000, thorough=200000)]
+    return [Sub("history", history(), run_case, quick=10000, thorough=240000)]
